@@ -15,7 +15,7 @@ COMMON_ASSUME = [
 
 prop("C01", [
     {"name": "c01_segmentation", "sources": ["c01_segmentation.cc"], "flavour": "asan",
-     "args": {"quick": ["--level=0", "--maxlen=150", "--mut-stride=3", "--timeout-ms=5000", "--deadline-s=150"],
+     "args": {"quick": ["--level=0", "--maxlen=150", "--mut-stride=4", "--timeout-ms=8000", "--deadline-s=160"],
               "thorough": ["--level=2", "--maxlen=420", "--mut-stride=1", "--bf2-every=4", "--timeout-ms=20000",
                            "--deadline-s=1200"]}},
 ],
@@ -29,7 +29,7 @@ prop("C01", [
     assumptions=COMMON_ASSUME + [
         "graph abstraction validated in-run by brute-force enumeration (all segmentations for n<=18, all "
         "<=2-cut segmentations for a sample of messages) and by state reproduction on replay"],
-    bounds={"quick": "messages <= 150 bytes, compact covering corpus + every 3rd mutation",
+    bounds={"quick": "messages <= 150 bytes, compact covering corpus + every 4th mutation",
             "thorough": "messages <= 420 bytes, full product corpus + all mutations, until the deadline"})
 
 prop("C03", [
